@@ -2314,11 +2314,89 @@ fn compile_fn(goenv: &GlobalGoEnv, gensym: &Gensym, f: anf::Fn) -> goast::Fn {
         }
     };
 
+    let mut body_stmts = body_stmts;
+    widen_renarrowed_type_switches(&mut body_stmts, &mut Vec::new());
+
     goast::Fn {
         name: patched_name,
         params,
         ret_ty,
         body: goast::Block { stmts: body_stmts },
+    }
+}
+
+/// `switch x := x.(type)` gives `x` the variant's struct type inside its arms. A match on the
+/// same variable nested in such an arm would switch on a non-interface value, which Go
+/// rejects: there the scrutinee is converted back to the enum's interface type first.
+fn widen_renarrowed_type_switches(stmts: &mut [goast::Stmt], narrowed: &mut Vec<String>) {
+    for stmt in stmts.iter_mut() {
+        match stmt {
+            goast::Stmt::SwitchType {
+                bind,
+                expr,
+                cases,
+                default,
+            } => {
+                let renarrowed = match &*expr {
+                    goast::Expr::Var {
+                        name,
+                        ty: ty @ goty::GoType::TName { name: iface },
+                    } if narrowed.contains(name) => Some((iface.clone(), ty.clone())),
+                    _ => None,
+                };
+                if let Some((iface, ty)) = renarrowed {
+                    let inner = std::mem::replace(
+                        expr,
+                        goast::Expr::Unit {
+                            ty: goty::GoType::TUnit,
+                        },
+                    );
+                    *expr = goast::Expr::Call {
+                        func: Box::new(goast::Expr::Var {
+                            name: iface,
+                            ty: goty::GoType::TFunc {
+                                params: vec![ty.clone()],
+                                ret_ty: Box::new(ty.clone()),
+                            },
+                        }),
+                        args: vec![inner],
+                        ty,
+                    };
+                }
+                let pushed = bind.clone();
+                if let Some(b) = &pushed {
+                    narrowed.push(b.clone());
+                }
+                for (_, block) in cases.iter_mut() {
+                    widen_renarrowed_type_switches(&mut block.stmts, narrowed);
+                }
+                if pushed.is_some() {
+                    narrowed.pop();
+                }
+                // the default arm sees the unnarrowed value
+                if let Some(block) = default {
+                    widen_renarrowed_type_switches(&mut block.stmts, narrowed);
+                }
+            }
+            goast::Stmt::If { then, else_, .. } => {
+                widen_renarrowed_type_switches(&mut then.stmts, narrowed);
+                if let Some(block) = else_ {
+                    widen_renarrowed_type_switches(&mut block.stmts, narrowed);
+                }
+            }
+            goast::Stmt::Loop { body } => {
+                widen_renarrowed_type_switches(&mut body.stmts, narrowed);
+            }
+            goast::Stmt::SwitchExpr { cases, default, .. } => {
+                for (_, block) in cases.iter_mut() {
+                    widen_renarrowed_type_switches(&mut block.stmts, narrowed);
+                }
+                if let Some(block) = default {
+                    widen_renarrowed_type_switches(&mut block.stmts, narrowed);
+                }
+            }
+            _ => {}
+        }
     }
 }
 
